@@ -893,7 +893,19 @@ pub fn check_trans(cfg: &Cfg, pre: &Snap, probe: &Probe, op: Op, t: &TransRes, e
 
     // ---- C05: no operation panics
     if let Ret::Panic(m) = ret {
+        if m.starts_with("<hazard abort") {
+            return out; // raised by the harness after a use of a dead object; reported by the monitors (C03)
+        }
         out.push(Finding::new("C05", "no_panic", format!("{}:{}", kind, crate::panics::location_of(m)), format!("{:?} on {} panicked: {}", op, show(cfg, pre), m)));
+        // the policy statements describe what every operation does; a panic is none of the outcomes they allow
+        let policy = match cfg.kind {
+            Kind::Raw => "C06",
+            Kind::Slru => "C07",
+            Kind::TwoQ => "C08",
+            Kind::Arc => "C09",
+            Kind::Wtlfu => "C10",
+        };
+        out.push(Finding::new(policy, "operation_completes", format!("{}:{}", kind, op_name(&op)), format!("{:?} on {} panicked instead of following the policy: {}", op, show(cfg, pre), m)));
         return out;
     }
     if *ret == Ret::NotApplicable {
@@ -995,6 +1007,8 @@ pub fn check_trans(cfg: &Cfg, pre: &Snap, probe: &Probe, op: Op, t: &TransRes, e
                 let zero_cap = cfg.kind == Kind::Raw && pre.scalars[0] == 0;
                 if !zero_cap && val(&post_res, k) != Some((k, ver)) {
                     out.push(Finding::new("C12", "put_makes_key_resident_with_value", kind.clone(), format!("after the put key {} should read ({},{}): {}", k, k, ver, ctx(Some(post)))));
+                    // the same observation is C02's "any value returned is the value most recently stored"
+                    out.push(Finding::new("C02", "put_stores_the_value", kind.clone(), format!("after the put key {} should read ({},{}): {}", k, k, ver, ctx(Some(post)))));
                 }
             }
         }
